@@ -101,6 +101,37 @@ def mismatch(rec, mech, what, wit):
     rec.violation(mech, what, wit)
 
 
+_prev: t.Dict[str, t.Any] = {}
+
+
+def reuse_object(rec, name, obj, want: bytes, wit) -> None:
+    """An object that has already been encoded once is given the field values of `obj` and encoded again: the bytes must
+    follow its current value (frozen dataclasses are skipped)."""
+    import dataclasses
+
+    old = _prev.get(name)
+    _prev[name] = obj
+    if old is None or type(old) is not type(obj) or not dataclasses.is_dataclass(obj):
+        return
+    try:
+        for fl in dataclasses.fields(obj):
+            if fl.init:
+                setattr(old, fl.name, getattr(obj, fl.name))
+    except (dataclasses.FrozenInstanceError, AttributeError):
+        rec.count("value_objects_immutable")
+        _prev[name] = None
+        return
+    rec.count("reencoded_after_mutation")
+    try:
+        again = old.pack()
+    except Exception as e:
+        mismatch(rec, f"{name}-pack-exception", f"after re-assigning the fields of an already encoded object: {type(e).__name__}: {e}", dict(wit, kind="session-mutated-after-pack"))
+        return
+    if again != want:
+        mismatch(rec, f"{name}-layout", f"an object that was encoded before and then given these field values encodes to {len(again)} bytes that differ from the reference ({len(want)} bytes): the encoding follows its history, not its value", dict(wit, kind="session-mutated-after-pack"))
+    _prev[name] = old
+
+
 def check_struct(rec, name, obj, want: bytes, unpack, wit) -> None:
     try:
         got = obj.pack()
@@ -118,6 +149,8 @@ def check_struct(rec, name, obj, want: bytes, unpack, wit) -> None:
         return
     if back != obj:
         mismatch(rec, f"{name}-roundtrip", f"unpack(pack(x)) != x: {back!r:.300} vs {obj!r:.300}", wit)
+        return
+    reuse_object(rec, name, obj, want, wit)
     rec.count(f"{name}_checked")
     rec.case((name, want))
 
@@ -219,6 +252,7 @@ def do_getkey(rec, rng, sdlen=None):
         mismatch(rec, "getkey-unpack-exception", f"{type(e).__name__}: {e}", wit)
     rec.count("getkey_req_checked")
     rec.case(("getkey", got))
+    reuse_object(rec, "getkey-request", obj, want, wit)
 
 
 def do_getkey_response(rec, rng, dom_len=None):
